@@ -10,7 +10,7 @@ use pin_project_lite::pin_project;
 use selium_protocol::{
     error_codes::REPLIER_ALREADY_BOUND,
     traits::{ShutdownSink, ShutdownStream},
-    ErrorPayload, Frame,
+    ErrorPayload, Frame, MAX_MESSAGE_SIZE,
 };
 use selium_std::errors::Result;
 use std::{
@@ -240,7 +240,15 @@ where
                         .headers
                         .get_or_insert(HashMap::new())
                         .insert("cid".into(), format!("{id}"));
-                    *buffered_req = Some(Frame::Message(payload));
+                    let request = Frame::Message(payload);
+                    // The routing tag may have pushed a request that was within the frame limit
+                    // over it. The replier's sink would refuse it, which must not be held
+                    // against the (healthy) replier: drop the request instead.
+                    if matches!(request.get_length(), Ok(len) if len <= MAX_MESSAGE_SIZE) {
+                        *buffered_req = Some(request);
+                    } else {
+                        error!("Dropping request that exceeds the frame limit once tagged");
+                    }
                 }
                 // Requestors may only send messages
                 Poll::Ready(Some((_, Ok(_)))) => {
